@@ -15,7 +15,7 @@ CASE_TYPE = "C17.Corr.case"
 RUNNER = "C17.Corr.run"
 # 1: open; 2: repaired by 16472e5d, 3: repaired by 09ff19a1 (both still recognised by Corr.cls so that a regression is
 # named: the findings being closed, the driver reports it as VIOLATION with the failing input)
-# 4: open (the integer 0 as a value: do_ava raises OtherError)
+# 4: repaired by 33a3a3a1 (the integer 0 / float 0.0 as a value: do_ava raised OtherError); recognised like 2 and 3
 FINDING_CLASSES = {1: "C17-F1", 2: "C17-F2", 3: "C17-F3", 4: "C17-F4"}
 RULE = ("EVERY (bundled map, local attribute) pair of the live tables: one send case, one send->receive case through "
         "the five bundled converters and one through that map alone; EVERY (bundled map, wire name) pair: receive with "
@@ -30,7 +30,7 @@ RULE = ("EVERY (bundled map, local attribute) pair of the live tables: one send 
         "'eptid'} x {send->receive via XML / objects, receive of NameID-wrapped values with and without qualifiers}.  Received attributes are saml.Attribute objects parsed by "
         "saml.attribute_from_string from XML rendered by this harness (or, for 'obj' cases, built directly); round trips "
         "serialise with the real to_string.  PYTHON VALUES: the complete table of value shapes (str / True / False / "
-        "int <0, 0, >0, huge / None items, in lists of length 0-3 in every order of a falsy and a truthy item, and every "
+        "int <0, 0, >0, huge / float 0.0, -0.0, 1.5, 1e+20, -2.5e-07 / None items, in lists of length 0-3 in every order of a falsy and a truthy item, and every "
         "one of them ALONE instead of in a list) x {bundled uri / basic / unspecified (ADFS) / shibboleth, own converter "
         "only, custom both / to-only / fro-only map, key not in the map, name format without converter} x send, and x round "
         "trip (via XML / objects alternating) for six of these twelve targets (all twelve in the thorough tier); one typed round trip or send for EVERY (bundled map, local attribute) pair and "
@@ -45,9 +45,11 @@ ASSUMPTIONS = [
     "attribute names, name formats and map keys consist of ASCII characters plus non-cased non-ASCII characters: "
     "the model's lower() is the ASCII part of str.lower() (the bundled tables are checked to be pure ASCII on every run)",
     "leading/trailing whitespace of names and values is ASCII whitespace (model's strip() is the ASCII part of str.strip())",
-    "local attribute values are lists of str / bool / int / None items or ONE str / bool / int object; not generated and "
-    "not modelled (Model: UNMODELLED): a single None (the Attribute object then has attribute_value = None), float, "
-    "bytes, tuple, set, nested lists, and for the eduPersonTargetedID OID anything but str items (no dict items)",
+    "local attribute values are lists of str / bool / int / float / None items or ONE str / bool / int / float object; a "
+    "float enters the Coq case as the numeral Python's str() prints for it plus the flag x == 0 (computed by the harness, "
+    "not by the code under test); not generated and not modelled (Model: UNMODELLED): a single None (the Attribute "
+    "object then has attribute_value = None), nan / inf, bytes, tuple, set, nested lists, and for the "
+    "eduPersonTargetedID OID anything but str items (no dict items)",
     "an AttributeValue holds either text or exactly one saml:NameID element; other structured values are out of scope",
     "list_to_local with an EMPTY converter list and an Attribute with NameFormat='' raises AttributeError "
     "('list' object has no attribute 'ava_from'); that input is not generated and not modelled",
@@ -409,6 +411,10 @@ def cq_pyval(v):
         return "PBool %s" % cq(v)
     if isinstance(v, int):
         return "PInt %s" % cq(v)
+    if isinstance(v, float):
+        if v != v or v in (float("inf"), float("-inf")):
+            raise TypeError("not a modelled Python value: %r" % (v,))
+        return "PFloat %s %s" % (cq(str(v)), cq(v == 0))
     if isinstance(v, str):
         return "PStr %s" % cq(v)
     if v is None:
@@ -815,7 +821,7 @@ def generate_custom(ctx, cases):
 
 # ------------------------------------------------------------------------------ Python values (round 2)
 # items a caller may put into a value list (or hand over alone): every truthiness x type corner of do_ava
-T_ITEMS = ["x", "", " p ", "0", "false", True, False, 1, 0, -7, 10 ** 21, None]
+T_ITEMS = ["x", "", " p ", "0", "false", True, False, 1, 0, -7, 10 ** 21, 0.0, -0.0, 1.5, 1e+20, -2.5e-07, None]
 T_MAPS = [
     {"identifier": "urn:x:format", "to": [["isMember", "urn:X:Attr:IsMember"], ["loginCount", "urn:X:Attr:loginCount"]],
      "fro": [["urn:X:Attr:IsMember", "isMember"], ["urn:X:Attr:loginCount", "loginCount"]]},
@@ -832,8 +838,8 @@ def value_shapes():
         if x is not None:
             shapes.append({"one": x})
         shapes.append([x])
-    falsy = ["", False, 0, None]
-    others = ["x", True, 1, False, "", 0]
+    falsy = ["", False, 0, 0.0, None]
+    others = ["x", True, 1, False, "", 0, 1.5]
     for f in falsy:
         for o in others:
             if f is o or (f == o and type(f) is type(o)):
@@ -844,13 +850,13 @@ def value_shapes():
         shapes.append([f, "x", True])
         shapes.append(["x", f, 1])
         shapes.append([True, "y", f])
-    shapes += [[True, False, True], [1, 2, 3], [-1, 10 ** 21], ["a", "b", 3], [False, False, 12], ["yes", False, "no"]]
+    shapes += [[0.0, 0, False, ""], [1.5, 2, "2"], [True, False, True], [1, 2, 3], [-1, 10 ** 21], ["a", "b", 3], [False, False, 12], ["yes", False, "no"]]
     return shapes
 
 
 def gen_typed_value(rng, str_only=False):
-    """seeded: a value list (or a single object) mixing str / bool / int items; 0 and None are rare (they end the
-    call with an exception: class 4 / outside the property)"""
+    """seeded: a value list (or a single object) mixing str / bool / int / float items; None is rare (it ends the
+    call with an exception: outside the property)"""
     def item():
         k = rng.randrange(20)
         if str_only or k < 7:
@@ -860,7 +866,7 @@ def gen_typed_value(rng, str_only=False):
         if k < 17:
             return rng.choice([1, 2, 7, -1, -40, 255, 65536, 10 ** 12, 2 ** 64 + 1, -(10 ** 30)])
         if k == 17:
-            return 0
+            return rng.choice([0, 0, 0.0, 1.5, -3.25, 1e+16, 0.1])
         if k == 18:
             return None
         return rng.choice(["0", "true", "False", "-5"])
@@ -954,6 +960,8 @@ def _tclass(x):
         return "True" if x else "False"
     if isinstance(x, int):
         return "int0" if x == 0 else ("int-" if x < 0 else "int+")
+    if isinstance(x, float):
+        return "float0" if x == 0 else "float"
     if x is None:
         return "None"
     return "str-empty" if x == "" else "str"
